@@ -19,6 +19,7 @@ from .. import core
 from .. import hyp_common as hc
 
 TOL = 1e-9
+POINTLIKE = ("point", "dualpoint", "idealpoint", "ppoint")
 
 
 def arr(rows):
@@ -32,6 +33,12 @@ def build(cls, o):
     rows = arr(o["rows"]) if o["rows"] else None
     if cls == "point":
         return H.Point(rows[0])
+    if cls == "dualpoint":
+        return H.DualPoint(rows[0])
+    if cls == "idealpoint":
+        return H.IdealPoint(rows[0])
+    if cls == "ppoint":
+        return P.Point(rows[0])
     if cls == "pair":
         return H.PointPair(rows)
     if cls == "segment":
@@ -75,7 +82,7 @@ def same(lib, cls, spec, typ, shape):
             return ("matrix", "%r vs spec %r" % (np.round(pd.T, 6).tolist(), spec["h"]))
         return None
     rows = arr(spec["rows"])
-    if cls == "point":
+    if cls in POINTLIKE:
         return None if hc.proj_close(pd, rows[0], TOL) else ("point", "%r vs %r" % (pd.tolist(), rows[0].tolist()))
     if cls == "hyperplane":
         if not hc.proj_close(pd[0], rows[0], 1e-8):
@@ -204,7 +211,8 @@ def replay_variants(run, emits, n):
         run.case(key=None, action="act_integer_data:" + cls)
         try:
             rows = np.array(o["rows"], dtype=np.int64)
-            ctor = {"point": lambda: H.Point(rows[0]), "pair": lambda: H.PointPair(rows), "geodesic": lambda: H.Geodesic(rows),
+            ctor = {"point": lambda: H.Point(rows[0]), "dualpoint": lambda: H.DualPoint(rows[0]),
+                    "idealpoint": lambda: H.IdealPoint(rows[0]), "ppoint": lambda: P.Point(rows[0]), "pair": lambda: H.PointPair(rows), "geodesic": lambda: H.Geodesic(rows),
                     "polygon": lambda: H.Polygon(rows), "simplex": lambda: P.Simplex(rows), "subspace": lambda: H.Subspace(rows)}[cls]
             X = ctor()
             A = H.Isometry(hc.spec_matrix(e["A"]), column_vectors=True)
@@ -312,7 +320,7 @@ def replay_representation(run, emits, n):
     from geometry_tools import projective as P
     pairs = {}
     for e in emits:
-        if e["obj"]["cls"] == "point":
+        if e["obj"]["cls"] in ("point", "dualpoint"):
             pairs.setdefault((json.dumps(e["A"]), json.dumps(e["B"])), []).append(e)
     for (Aj, Bj), es in sorted(pairs.items()):
         for Rep, Wrap in ((P.ProjectiveRepresentation, P.Transformation), (H.HyperbolicRepresentation, H.Isometry)):
@@ -343,30 +351,87 @@ def replay_representation(run, emits, n):
                 run.violation("rep:%s:%s:%s" % (Rep.__name__, Aj, Bj), bad[0], dict(A=json.loads(Aj), B=json.loads(Bj), observed=bad[1]))
 
 
+class TLCJobs:
+    """the TLC runs of this check are independent of each other and each is dominated by the start of the JVM: start them
+    together (at most `width` at a time) and do the bookkeeping of Run.tlc when a result is collected"""
+
+    def __init__(self, run, width):
+        from concurrent.futures import ThreadPoolExecutor
+        self.run, self.pool, self.futs = run, ThreadPoolExecutor(max_workers=max(1, width)), {}
+
+    def submit(self, module, cfg, name, emit_prefix, workers=2):
+        import os
+        mod_path = os.path.join(core.SPEC, module)
+        self.futs[name] = (mod_path, self.pool.submit(core.run_tlc, mod_path, cfg, os.path.join(self.run.work, name), workers=workers,
+                                                      seed=self.run.seed, emit_prefix=emit_prefix))
+
+    def result(self, name):
+        import os
+        mod_path, fut = self.futs.pop(name)
+        r = fut.result()
+        self.run.states += r.distinct
+        self.run.transitions += r.generated
+        d = r.as_dict()
+        d["module"], d["run"] = os.path.relpath(mod_path, core.VERIF), name
+        self.run.tlc_runs.append(d)
+        return r
+
+    def close(self):
+        self.pool.shutdown(wait=True, cancel_futures=True)
+
+
 def run(run, replay=None):
+    from . import c03_proj
+    from .. import c03_shapes, c03_near, c03_rep
     quick = run.tier == "quick"
     rng = random.Random(run.seed)
-    run.rule = ("one case per TLC state (object, A, B) of HypAction.tla / ProjAction.tla: five library expressions compared with "
-                "the exact images; plus composite stacks per class and the representation clause per (A, B)")
+    run.rule = ("one case per TLC state: (object, A, B) of HypAction.tla / ProjAction.tla with five library expressions compared with "
+                "the exact images (every representative of A the spec names, composite stacks per class); (X shape, T shape, "
+                "broadcast mode) of ActShapes.tla with every entry of the result compared; (family, B, X) of NearIdentity.tla at "
+                "every value of the parameter, compared relative to the displacement; (generator pair) of RepAction.tla / "
+                "HypRepAction.tla with every word of length <= 3 and every list of <= 3 words, per storage type")
     run.assumptions += [
         "objects and isometries from the exact universe of HypIso/HypAction (dimension 2 quick; 2 and 3 thorough)",
         "hyperplane ideal bases are frame dependent: compared through normal, nullity, orthogonality and rank",
+        "pairwise broadcasting: result shape = X.shape + T.shape (utils.matrix_product docstring; the same reading as Composite.tla / C04)",
+        "near-identity elements: parameter values 1e-9 ... 1e-3 of both signs; the library must reproduce the displacement to 1e-3 relative",
     ]
-    for n in ([2] if quick else [2, 3]):
-        c = core.cfg(init="ActInit", next_="ActNext", constants=dict(N=n, MaxLen=0),
-                     invariants=["ObjectsWellFormed", "ImageWellFormed", "ActionLaw", "IdentityLaw", "InverseActs",
-                                 "EdgesCommute", "EmitCase"])
-        r = run.tlc("hyp/HypAction.tla", c, name="HypAction_n%d" % n, workers=min(8, core.NCPU), emit_prefix="CASE ")
-        emits = r.emits
-        replay_cases(run, emits, n)
-        replay_composites(run, emits, n, rng)
-        replay_representation(run, emits, n)
-        replay_transformation_histories(run, emits, n)
-        replay_variants(run, emits, n)
-        for cls in ("segment", "tangent", "polygon"):
-            for e in emits:
-                if e["obj"]["cls"] == cls and e["A"] != e["B"]:
-                    run.sample(dict(kind="action case (%s)" % cls, n=n, obj=e["obj"], A=e["A"], B=e["B"], image=e["img"]))
-                    break
-    from . import c03_proj
-    c03_proj.run(run)
+    dims = [2] if quick else [2, 3]
+    jobs = TLCJobs(run, width=min(4, core.NCPU))
+    try:
+        for n in dims:
+            c = core.cfg(init="ActInit", next_="ActNext", constants=dict(N=n, MaxLen=0),
+                         invariants=["ObjectsWellFormed", "ImageWellFormed", "ActionLaw", "IdentityLaw", "InverseActs",
+                                     "EdgesCommute", "EmitCase"])
+            jobs.submit("hyp/HypAction.tla", c, "HypAction_n%d" % n, "CASE ", workers=min(4, core.NCPU))
+        jobs.submit(workers=min(4, core.NCPU), **c03_proj.tlc_job())
+        jobs.submit(**c03_shapes.tlc_job())
+        jobs.submit(**c03_near.tlc_job())
+        jobs.submit(**c03_rep.tlc_job_proj())
+        for n in dims:
+            jobs.submit(**c03_rep.tlc_job_hyp(n))
+        shape_emits, matlist = c03_shapes.parse(jobs.result("ActShapes"))
+        for n in dims:
+            emits = jobs.result("HypAction_n%d" % n).emits
+            replay_cases(run, emits, n)
+            replay_composites(run, emits, n, rng)
+            replay_representation(run, emits, n)
+            replay_transformation_histories(run, emits, n)
+            replay_variants(run, emits, n)
+            if n == 2:
+                c03_shapes.replay_hyperbolic(run, shape_emits, emits, same, build)
+            for cls in ("segment", "tangent", "polygon", "dualpoint"):
+                for e in emits:
+                    if e["obj"]["cls"] == cls and e["A"] != e["B"]:
+                        run.sample(dict(kind="action case (%s)" % cls, n=n, obj=e["obj"], A=e["A"], B=e["B"], image=e["img"]))
+                        break
+        c03_proj.replay(run, jobs.result("ProjAction"))
+        c03_shapes.replay_projective(run, shape_emits, matlist)
+        c03_near.replay(run, jobs.result("NearIdentity").emits)
+        r = jobs.result("RepAction")
+        listinfo = c03_rep.parse_lists(r.stdout)
+        c03_rep.replay(run, r.emits, listinfo)
+        for n in dims:
+            c03_rep.replay(run, jobs.result("HypRepAction_n%d" % n).emits, listinfo)
+    finally:
+        jobs.close()
